@@ -246,9 +246,18 @@ def mean_metric(name, data, predicted, weights):
 # --------------------------------------------------------------------------
 # "left untouched"
 # --------------------------------------------------------------------------
-def snapshot(est, depth=0):
-    """Attribute names, digests of attribute values and get_params keys of an estimator and every estimator nested in it."""
-    out = {"class": type(est).__name__, "attrs": {}, "nested": {}}
+def snapshot(est, depth=0, probe=None):
+    """
+    Attribute names, digests of attribute values and get_params keys of an estimator and of every estimator
+    nested in it (Chain steps, Vector components, chains of chains); with *probe* coordinates also a digest of
+    what each of them predicts there (None while it is not fitted).
+    """
+    out = {"class": type(est).__name__, "attrs": {}, "nested": {}, "predict": None}
+    if probe is not None and hasattr(est, "predict"):
+        try:
+            out["predict"] = core.digest(est.predict(probe))
+        except Exception:  # noqa: BLE001 - not fitted (or cannot predict on its own): nothing to preserve
+            out["predict"] = None
     try:
         out["params"] = core.digest({k: v for k, v in est.get_params(deep=False).items() if not hasattr(v, "get_params")})
         out["param_names"] = sorted(est.get_params(deep=True))
@@ -258,7 +267,7 @@ def snapshot(est, depth=0):
         out["attrs"][name] = core.digest(value)
         if depth < 4:
             for path, sub in _nested_estimators(name, value):
-                out["nested"][path] = snapshot(sub, depth + 1)
+                out["nested"][path] = snapshot(sub, depth + 1, probe)
     return out
 
 
@@ -301,6 +310,9 @@ def snapshot_diff(before, after, path="estimator"):
         out.append("%s: attributes changed value: %s" % (path, changed))
     if before.get("params") != after.get("params") or before.get("param_names") != after.get("param_names"):
         out.append("%s: get_params() changed" % path)
+    if before.get("predict") != after.get("predict"):
+        out.append("%s: %s" % (path, "predicts differently than before the call" if before.get("predict") is not None
+                               else "was not fitted before the call and predicts now"))
     for key in sorted(set(before["nested"]) | set(after["nested"])):
         if key not in before["nested"] or key not in after["nested"]:
             out.append("%s.%s: nested estimator appeared/disappeared" % (path, key))
